@@ -22,13 +22,13 @@ int fft_cache_capacity();
 using namespace vf;
 using namespace dsplib;
 
-enum Kind { FFT_C, FFT_R, IFFT, IRFFT, HOLD_C, HOLD_R, HOLD_I, USE, BAD_C, HOLD_IR, HOLD_Z, PAD_C, PAD_R, USEBAD };
+enum Kind { FFT_C, FFT_R, IFFT, IRFFT, HOLD_C, HOLD_R, HOLD_I, USE, BAD_C, HOLD_IR, HOLD_Z, PAD_C, PAD_R, USEBAD, HUGE_C, HUGE_I };
 struct Req {
     Kind kind;
     int n;   // length; for USE: index of the held plan (mod number held)
 };
 static std::string rname(const Req& r) {
-    static const char* k[] = {"fft", "rfft", "ifft", "irfft", "holdC", "holdR", "holdI", "use", "fftplan-wrong-length", "holdIR", "holdCzt", "fftpad", "rfftpad", "use-wrong-length"};
+    static const char* k[] = {"fft", "rfft", "ifft", "irfft", "holdC", "holdR", "holdI", "use", "fftplan-wrong-length", "holdIR", "holdCzt", "fftpad", "rfftpad", "use-wrong-length", "fft-of-1e308-data", "ifft-of-1e308-data"};
     return std::string(k[r.kind]) + std::to_string(r.n);
 }
 
@@ -80,6 +80,16 @@ static Out exec_raw(const Req& q, std::vector<Held>& held) {
     switch (q.kind) {
     case PAD_C: return flat(fft(cin(q.n / 1000, 21), q.n % 1000));    // n = input length * 1000 + transform length
     case PAD_R: return flat(rfft(rin(q.n / 1000, 22), q.n % 1000));
+    case HUGE_C: {   // legal finite data at the top of the double range: the transform overflows to inf / nan (and raises FE_OVERFLOW)
+        arr_cmplx x = cin(q.n, 24);
+        for (int i = 0; i < q.n; ++i) x[i] = x[i] * 1.5e308;
+        return flat(fft(x));
+    }
+    case HUGE_I: {
+        arr_cmplx x = cin(q.n, 25);
+        for (int i = 0; i < q.n; ++i) x[i] = x[i] * 1.5e308;
+        return flat(ifft(x));
+    }
     case BAD_C: {
         FftPlan p(q.n);
         return flat(p.solve(cin(q.n + 1, 18)));
@@ -195,6 +205,8 @@ static int primary_key(const Req& q, bool real_cache) {
     case HOLD_I: return real_cache ? 0 : q.n;
     case IRFFT:
     case HOLD_IR: return real_cache ? 0 : q.n / 2;
+    case HUGE_C:
+    case HUGE_I: return real_cache ? 0 : q.n;
     case PAD_C: return real_cache ? 0 : q.n % 1000;
     case PAD_R: return real_cache ? q.n % 1000 : 0;
     case FFT_R:
@@ -298,6 +310,9 @@ int main(int argc, char** argv) {
         {"H", {{FFT_C, 65536}, {FFT_C, 65552}, {FFT_C, 131072}, {FFT_R, 131072}, {IFFT, 98304}, {FFT_C, 4099}}},
         // lengths whose primality test walks beyond the built-in prime table (a cursor / generator that survives between calls)
         {"I", {{FFT_C, 70747}, {FFT_C, 66049}, {FFT_C, 100003}, {FFT_R, 132098}, {FFT_C, 66047}, {IFFT, 69169}}},
+        // a request whose arithmetic overflows (finite input at the top of the range) followed by ordinary ones: sticky floating-point
+        // status, error latches
+        {"J", {{HUGE_C, 16}, {HUGE_I, 12}, {IFFT, 12}, {FFT_C, 53}, {IFFT, 60}, {IRFFT, 24}}},
         {"F", {{HOLD_IR, 12}, {HOLD_IR, 20}, {IRFFT, 14}, {IRFFT, 12}, {HOLD_Z, 5}, {HOLD_Z, 9}, {USEBAD, 0}, {USE, 0}, {USE, 1}, {USEBAD, 1}}},
         {"D", {{FFT_C, 12}, {FFT_C, 60}, {FFT_C, 53}, {FFT_R, 30}, {HOLD_C, 60}, {HOLD_R, 30}, {HOLD_I, 12}, {HOLD_C, 53}, {USE, 0}, {USEBAD, 0}}},
     };
@@ -308,6 +323,7 @@ int main(int argc, char** argv) {
         if (asan) d = NL == 6 ? (T ? 5 : 4) : 4;
         if (std::string(al.name) == "H") d = asan ? 2 : (T ? 4 : 3);
         if (std::string(al.name) == "I") d = asan ? 1 : (T ? 3 : 2);
+        if (std::string(al.name) == "J") d = asan ? 3 : (T ? 6 : 4);
         std::string chk = std::string("seq.") + al.name;
         if (!ctx.wants(chk.c_str())) continue;
         // references: each letter in a brand-new thread (twice: must be deterministic)
